@@ -49,3 +49,10 @@ dict(id='c04-nicv-total-variance-unsquared-mean', prop='C04', expect='C04-D8', f
  dict(id='c04-kernel1-square-of-sum-position', prop='C04', expect='C04-D12', file='scared/distinguishers/partitioned.py',
       old="                        self_sum_square[sample_idx, data_idx, data_value] += xx\n", new="                        self_sum_square[sample_idx, data_idx, data_value] += x\n"),
 ]
+
+VARIANTS += [
+ dict(id='c04-p4ref6-pipeline-inf-kept', prop='C04', base='P4-REF6', expect='C04', file='scared/distinguishers/partitioned.py',
+      old="        metric[_np.isinf(metric)] = _np.nan\n", new=""),
+ dict(id='c04-p4ref6-pipeline-counters-ge', prop='C04', base='P4-REF6', expect='C04', file='scared/distinguishers/partitioned.py',
+      old="            non_zero_indices = self.counters[i] > 0\n", new="            non_zero_indices = self.counters[i] >= 0\n"),
+]
